@@ -40,6 +40,17 @@ def ecdsaSignAux (H : HmacFn) (d : Nat) (h : Bytes) : Nat → Nat → Option (Na
 
 def ecdsaSign (d : Nat) (h : Bytes) : Option (Nat × Nat × Nat) := ecdsaSignAux hmacSha256 d h 8 0
 
+/-- the same with an explicit bound on the number of RFC 6979 candidates examined per nonce -/
+def ecdsaSignAuxGen (H : HmacFn) (cand : Nat) (d : Nat) (h : Bytes) : Nat → Nat → Option (Nat × Nat × Nat)
+  | 0, _ => none
+  | fuel+1, iter =>
+    match nonceRFC6979 H cand (be32 d) h [] [] iter with
+    | none => none
+    | some k =>
+      match ecdsaSignWithNonce d k h with
+      | some sig => some sig
+      | none => ecdsaSignAuxGen H cand d h fuel (iter + 1)
+
 /-- textbook verification for r, s already known to be scalars in [0, N) -/
 def ecdsaVerify (h : Bytes) (Q : Pt) (r s : Nat) : Bool :=
   if r = 0 ∨ s = 0 ∨ r ≥ N ∨ s ≥ N then false else
